@@ -190,6 +190,33 @@ Example C14_nonvacuous_stream :
 Proof. exact w_trailing. Qed.
 Print Assumptions C14_nonvacuous_stream.
 
+(* ---- 3c. lying size fields --------------------------------------------------------------- *)
+(* an input whose outer header declares more than there is (the verdict class
+   ErrValueTooLarge, compared with the implementation case by case) has no first
+   value at all: the specification decoder rejects it for every target type,
+   directly and through a stream, without looking at - let alone allocating - the
+   declared size.  The Go side of this clause (no panic, no allocation beyond
+   64 KiB + 1 KiB per input byte, also for Transaction/Block whose DecodeRLP
+   peeks Kind() first) rests on the size-lie campaign run in a child process
+   under an address-space limit. *)
+Theorem C14_lying_outer_size_rejected_partial :
+  forall b, too_large b = true ->
+    split_item b = None /\ decode b = None /\ forall s, decode_stream_t s b = None.
+Proof. exact too_large_rejected. Qed.
+Print Assumptions C14_lying_outer_size_rejected_partial.
+
+Theorem C14_peeking_decoders_exact : peeking_decoders =
+  [("core/types/block.go", "Block.DecodeRLP"); ("core/types/transaction.go", "Transaction.DecodeRLP")]%string.
+Proof. exact peeking_decoders_exact. Qed.
+Print Assumptions C14_peeking_decoders_exact.
+
+(* 22 bytes: a transaction whose outer list and gas-price string both declare 2^63 bytes *)
+Example C14_nonvacuous_lying_size :
+  too_large [255; 128;0;0;0;0;0;0;16; 7; 191; 128;0;0;0;0;0;0;0; 1; 130; 82; 8] = true /\
+  too_large [206; 7; 1] = true /\ too_large w_tx_re = false.
+Proof. repeat split; vm_compute; reflexivity. Qed.
+Print Assumptions C14_nonvacuous_lying_size.
+
 (* ---- 4. hostile bytes: the specification decoder is total and linear ------------------ *)
 (* [decode] is a total Coq function (no exception, no divergence) and what it
    builds is at most twice the input.  PARTIAL with respect to the property:
